@@ -38,6 +38,15 @@
 #include <ace_time/zonedbx/zone_infos.h>
 #include <ace_time/zonedbx/zone_registry.h>
 
+// ---- definitions required by the guarded hooks in /repo (H1, H2) ----
+long ace_time_verif_basic_dropped = 0;                 // H1: transitions dropped by BasicZoneProcessor::addTransition
+struct PoolEvent { uint8_t op, prior, cand, free; };
+static std::vector<PoolEvent> g_pool_events;           // H2: TransitionStorage pool operations
+static bool g_pool_record = false;
+void ace_time_verif_pool_event(uint8_t op, uint8_t indexPrior, uint8_t indexCandidates, uint8_t indexFree) {
+  if (g_pool_record) g_pool_events.push_back(PoolEvent{op, indexPrior, indexCandidates, indexFree});
+}
+
 // independent civil calendar (Howard Hinnant's algorithms), 64-bit, used as
 // harness-side reference; itself cross-checked against the TLC table in C06
 struct Civil { long y; int m; int d; };
